@@ -130,6 +130,8 @@ pub fn episode(rng: &mut Rng, cols: &[(&'static str, &'static str)]) -> Option<N
         let t = wrap(c, family_type(rng, f));
         let np = *rng.pick(&[0usize, 20, 40]);
         let a = vcore::guarded(|| mk::array(rng, &t, total, Cfg::wild(np))).ok()?;
+        // (RunArray::try_new names its own child fields: give the array the declared type)
+        let a = if a.data_type() != &t { make_array(a.to_data().into_builder().data_type(t.clone()).build().ok()?) } else { a };
         let s = child_offset(rng, &a);
         modes.push(vec![true, true, s.is_some(), s.is_some()]);
         shifted.push(s.unwrap_or_else(|| a.clone()));
@@ -139,8 +141,9 @@ pub fn episode(rng: &mut Rng, cols: &[(&'static str, &'static str)]) -> Option<N
     let schema = Arc::new(Schema::new(fields));
     let b0 = RecordBatch::try_new(schema.clone(), base).ok()?;
     let b2 = RecordBatch::try_new(schema.clone(), shifted).ok()?;
-    let k2 = *rng.pick(&[1usize, 2, 3, 5, 7]);
-    let batches = vec![b0.clone(), b0.slice(k, n), b2.clone(), b2.slice(k2, total - k2 - rng.below(2))];
+    let k2 = (*rng.pick(&[1usize, 2, 3, 5, 7])).min(total - 2);
+    let n2 = total - k2 - rng.below(2);
+    let batches = vec![b0.clone(), b0.slice(k, n), b2.clone(), b2.slice(k2, n2)];
     let evo = vec!["unsliced".to_string(), format!("slice({k},{n})"), "child-offset".to_string(), format!("child-offset+slice({k2},..)")];
     Some(Nest { ep: Episode { name: "nest".into(), schema, batches, evo }, pairs: cols.to_vec(), modes })
 }
